@@ -33,11 +33,22 @@ def dconst(r_ang, gi, gj):
     return -(cnst.mu_0 * cnst.hbar * gi * gj / (8 * math.pi ** 2 * (r_ang * 1e-10) ** 3))
 
 
+ACUTE = [((4, 4, 0), (4, 0, 4), (0, 4, 4)), ((3, 1, 1), (1, 3, 1), (1, 1, 3)), ((5, 2, 2), (2, 5, 2), (2, 2, 5)), ((4, 3, 3), (3, 4, 3), (3, 3, 4))]
+
+
 def gen_case(rng, t):
-    kind = lc.LKINDS[t % 5]
-    L = lc.gen_lattice(rng, kind)
-    n = rng.randint(1, 5)
-    pos = lc.gen_vectors(rng, L, n, far=(t % 3 == 0))
+    if t % 6 == 5:
+        # strongly acute (rhombohedral) cells with an atom near the body centre: the reduced interatomic vector is longer than a cell edge
+        kind = "acute"
+        L = ACUTE[(t // 6) % len(ACUTE)]
+        n = rng.randint(2, 3)
+        ctr = tuple(sum(r[k] for r in L) // 2 for k in range(3))
+        pos = [(0, 0, 0), tuple(ctr[k] + rng.randint(-1, 1) for k in range(3))] + [tuple(rng.randint(0, 6) for _ in range(3))] * (n - 2)
+    else:
+        kind = lc.LKINDS[t % 5]
+        L = lc.gen_lattice(rng, kind)
+        n = rng.randint(1, 5) if t % 4 else rng.randint(8, 12)       # larger systems for sparse sub-selections
+        pos = lc.gen_vectors(rng, L, n, far=(t % 3 == 0))
     # distinct atoms at distinct sites (modulo the lattice), so that no pair has zero distance
     syms = [rng.choice(ELS) for _ in range(n)]
     return dict(L=[list(r) for r in L], pos=[list(p) for p in pos], syms=syms, kind=kind)
@@ -151,6 +162,8 @@ def run(ctx):
             perm = rng.sample(range(n), n)
             cut = rng.randint(0, n)
             si, sj = perm[:cut], perm[cut:]
+        elif n >= 8:
+            si, sj = sorted(rng.sample(range(n), rng.randint(1, 3))), sorted(rng.sample(range(n), rng.randint(1, 4)))      # sparse, non-contiguous
         else:
             si, sj = rng.sample(range(n), rng.randint(0, n)), rng.sample(range(n), rng.randint(0, n))
         self_c, iso = rng.random() < 0.5, rng.random() < 0.4
@@ -219,28 +232,31 @@ def run(ctx):
             ctx.fail_input("tensor", case, "DipolarTensor raised %s: %s" % (type(e).__name__, e), classify)
         # RSS
         rows = sorted(lc.norm2(r) for r in c["L"])
-        rho = rng.choice([max(1, rows[0] // 4), rows[0], rows[0] + 3, rows[1], 2 * rows[1]])
-        b_, _e = lc.bounds_exact(c["L"], (True, True, True), rho, 1)
-        if lc.grid_size(b_) <= 6000:
-            rc = dict(c, rho=rho, iso=iso)
-            try:
-                p = rss_oracle(rc)
-            except Exception as e:
-                p = "raised %s: %s" % (type(e).__name__, e)
-            ctx.evaluations += 1
-            ctx.seen(("rss", iso, rho > rows[0]))
-            if p:
-                ctx.fail_input("rss", rc, p, classify)
-            # image count per atom against the Coq model
-            if not iso:
-                i0 = rng.randrange(n)
-                cnt = 0
-                for j in range(n):
-                    v = tuple(c["pos"][j][k] - c["pos"][i0][k] for k in range(3))
-                    cnt += len(lc.brute_images(c["L"], (True, True, True), v, rho, 1, nonzero_only=True))
-                cases.append(("[Z.of_nat (length (rss_images %s %d 1 %s %s))]" % (lc.coq_L(c["L"]), rho, lc.coq_vs([tuple(p_) for p_ in c["pos"]]),
-                                                                                 "(%s,%s,%s)" % tuple(fw.zlit(x) for x in c["pos"][i0])), [cnt]))
-                meta.append(("rss-count", dict(L=c["L"], rho=rho, i=i0)))
+        rhos = [rng.choice([max(1, rows[0] // 4), rows[0], rows[0] + 3, rows[1], 2 * rows[1]])]
+        if c["kind"] == "acute":
+            rhos = sorted(set(rng.randint(rows[0] // 3, 3 * rows[0]) for _ in range(6)))
+        for rho in rhos:
+          b_, _e = lc.bounds_exact(c["L"], (True, True, True), rho, 1)
+          if n <= 5 and lc.grid_size(b_) <= 6000:
+              rc = dict(c, rho=rho, iso=iso)
+              try:
+                  p = rss_oracle(rc)
+              except Exception as e:
+                  p = "raised %s: %s" % (type(e).__name__, e)
+              ctx.evaluations += 1
+              ctx.seen(("rss", iso, rho > rows[0]))
+              if p:
+                  ctx.fail_input("rss", rc, p, classify)
+              # image count per atom against the Coq model
+              if not iso:
+                  i0 = rng.randrange(n)
+                  cnt = 0
+                  for j in range(n):
+                      v = tuple(c["pos"][j][k] - c["pos"][i0][k] for k in range(3))
+                      cnt += len(lc.brute_images(c["L"], (True, True, True), v, rho, 1, nonzero_only=True))
+                  cases.append(("[Z.of_nat (length (rss_images %s %d 1 %s %s))]" % (lc.coq_L(c["L"]), rho, lc.coq_vs([tuple(p_) for p_ in c["pos"]]),
+                                                                                   "(%s,%s,%s)" % tuple(fw.zlit(x) for x in c["pos"][i0])), [cnt]))
+                  meta.append(("rss-count", dict(L=c["L"], rho=rho, i=i0)))
     # pair sets are sets: evaluate the model, compare sorted
     exprs = [e for e, _ in cases]
     vals = fw.coq_eval("c11", IMPORTS, exprs)
